@@ -169,7 +169,7 @@ func genChain(r *Rand) (ChainDesc, uint64, string) {
 	ver := func() uint64 { return uint64(uint32(r.U64())) }
 	style := ""
 	switch k := r.Intn(10); {
-	case k < 4: // a fork at every epoch around the duty: any epoch mistake changes the domain
+	case k < 5: // a fork at every epoch around the duty: any epoch mistake changes the domain
 		style = "forks:dense"
 		lo := uint64(0)
 		if e > 2 {
@@ -178,7 +178,7 @@ func genChain(r *Rand) (ChainDesc, uint64, string) {
 		for x := lo; x <= e+3; x++ {
 			c.Forks = append(c.Forks, [2]uint64{x, ver()})
 		}
-	case k < 5:
+	case k < 6 && r.Bool():
 		style = "forks:at-duty-epoch"
 		if e > 3 && r.Bool() {
 			c.Forks = append(c.Forks, [2]uint64{e - 3, ver()})
@@ -207,10 +207,10 @@ func genChain(r *Rand) (ChainDesc, uint64, string) {
 }
 
 func slotIn(r *Rand, e, spe uint64) (uint64, string) {
-	switch r.Intn(4) {
-	case 0:
+	switch r.Intn(6) {
+	case 0, 1:
 		return e*spe + spe - 1, "slot:last-of-epoch"
-	case 1:
+	case 2:
 		return e * spe, "slot:first-of-epoch"
 	default:
 		return e*spe + uint64(r.Intn(int(spe))), "slot:inside-epoch"
